@@ -5,5 +5,5 @@ PFX=$1; shift
 D=$(cd "$(dirname "$0")" && pwd)
 for P in "$@"; do
   $D/eval_seed.sh ${PFX}${P} $P > /tmp/eval_$(basename ${PFX})${P}.log 2>&1
-  git -C /repo worktree remove --force /tmp/wt3_$P 2>/dev/null
+  for W in /tmp/wt3_$P /tmp/wt4_$P; do [ -d $W ] && git -C /repo worktree remove --force $W 2>/dev/null; done
 done
